@@ -8,6 +8,7 @@ import (
 	"crypto/rand"
 	"encoding/json"
 	"fmt"
+	"hash/fnv"
 	"io"
 	"os"
 	"path/filepath"
@@ -46,6 +47,20 @@ type Ctx struct {
 	// Features are coverage tags (rare-branch probes) counted across runs.
 	Features map[string]int64
 	TB       *testing.T
+	// Cases, when a run evaluates several distinct cases (e.g. one per crash
+	// point), lists their identifiers; they are counted instead of the run's
+	// event-log hash.
+	Cases []string
+	// Evals overrides the number of evaluations this run stands for.
+	Evals int64
+}
+
+// Case records one evaluated case of this run.
+func (c *Ctx) Case(id string) {
+	h := fnv.New64a()
+	h.Write([]byte(id))
+	c.Cases = append(c.Cases, strconv.FormatUint(h.Sum64(), 16))
+	c.Evals++
 }
 
 func (c *Ctx) Feature(name string) { c.Features[name]++ }
@@ -88,6 +103,8 @@ type Result struct {
 	Leak       string                 `json:"leak,omitempty"`
 	Harness    string                 `json:"harness_error,omitempty"`
 	Exhausted  bool                   `json:"budget_exhausted,omitempty"`
+	Cases      []string               `json:"-"`
+	Evals      int64                  `json:"-"`
 }
 
 func (r *Result) Class() string {
@@ -134,6 +151,7 @@ func RunOnce(t *testing.T, env *Env, p *Prop, seed, run uint64, vals []uint32, r
 				env.SetEntropy(ctx.Rand)
 			}
 			defer func() {
+				sim.DisarmSelect()
 				rand.Reader = old
 				if env != nil && env.SetEntropy != nil {
 					env.SetEntropy(nil)
@@ -169,6 +187,7 @@ func RunOnce(t *testing.T, env *Env, p *Prop, seed, run uint64, vals []uint32, r
 		res.Steps = s.Steps()
 		res.Counters = s.Counters
 		res.Features = ctx.Features
+		res.Cases, res.Evals = ctx.Cases, ctx.Evals
 		res.Info = ctx.Info
 		res.Reached = ctx.Reached
 		res.Nontrivial = ctx.Nontrivial
@@ -356,6 +375,7 @@ type Report struct {
 	Worker      int                      `json:"worker"`
 	Seed        uint64                   `json:"seed"`
 	Runs        int64                    `json:"runs"`
+	Evals       int64                    `json:"evals"`
 	Reached     int64                    `json:"reached"`
 	Nontrivial  int64                    `json:"nontrivial"`
 	Steps       uint64                   `json:"steps"`
@@ -451,9 +471,20 @@ func Main(t *testing.T, env *Env, props map[string]*Prop) {
 		if os.Getenv("VERIF_RUNLOG") != "" {
 			rep.RunLog = append(rep.RunLog, fmt.Sprintf("%d %s %d", run, h, r.Steps))
 		}
+		if r.Evals > 0 {
+			rep.Evals += r.Evals
+		} else {
+			rep.Evals++
+		}
 		if r.Reached && r.Nontrivial {
 			rep.Nontrivial++
-			nth[h] = true
+			if len(r.Cases) > 0 {
+				for _, cs := range r.Cases {
+					nth[cs] = true
+				}
+			} else {
+				nth[h] = true
+			}
 		}
 		if r.Leak != "" {
 			rep.Leaks++
